@@ -458,7 +458,7 @@ def cmd_report():
         for p in r["props"]:
             t = tot.setdefault(p, {})
             v = r.get("verdict")
-            if r["id"] in tri:
+            if r["id"] in tri and v in ("survived", "inconclusive"):
                 v = "survived:" + tri[r["id"]]["class"]
             t[v] = t.get(v, 0) + 1
     cols = sorted({v for t in tot.values() for v in t})
@@ -468,7 +468,7 @@ def cmd_report():
     allv = {}
     for r in done.values():
         v = r.get("verdict")
-        if r["id"] in tri:
+        if r["id"] in tri and v in ("survived", "inconclusive"):
             v = "survived:" + tri[r["id"]]["class"]
         allv[v] = allv.get(v, 0) + 1
     out.append("")
